@@ -137,6 +137,11 @@ def run(tier, replay):
                 pmeta.append(("peek", a))
                 progs.append(head + "W% = 1\r\nX% = 0\r\nY% = 2\r\n" + segline + "POKE VARPTR(X%%), %d\r\nPOKE VARPTR(X%%) + 1, %d\r\nPRINT X%%; W%%; Y%%\r\n" % (lo, hi) + tail)
                 pmeta.append(("poke", (lo, hi)))
+        # the poked value given as a variable: another one, and the poked variable itself
+        progs.append("X%% = 0\r\nL%% = %d\r\nH%% = %d\r\nPOKE VARPTR(X%%), L%%\r\nPOKE VARPTR(X%%) + 1, H%%\r\nPRINT X%%\r\n" % (lo, hi))
+        pmeta.append(("poke", (lo, hi)))
+        progs.append("X%% = %d\r\nPOKE VARPTR(X%%) + 1, X%%\r\nPRINT X%%\r\n" % lo)
+        pmeta.append(("poke", (lo, lo)))
         # elements of a SHARED array of the module, reached from inside a SUB / a FUNCTION
         for head, tail in (("DIM SHARED XS%(3)\r\nN% = 7\r\nP\r\nSUB P\r\n", "END SUB\r\n"), ("DIM SHARED XS%(3)\r\nDIM G%(2)\r\nN% = F%\r\nFUNCTION F%\r\n", "END FUNCTION\r\n"),
                            ("M& = 70000\r\nREDIM SHARED XS%(3)\r\nP\r\nSUB P\r\nL% = 4\r\n", "END SUB\r\n")):
